@@ -53,6 +53,62 @@ class E(Exception):
     pass
 inst = K()
 lam = lambda x: x
+class Hostile:
+    def __repr__(self):
+        return 5
+    def __str__(self):
+        return None
+    def __len__(self):
+        return -1
+    def __iter__(self):
+        return 5
+    def __index__(self):
+        return "x"
+    def __bool__(self):
+        return 2
+    def __hash__(self):
+        return "h"
+    def __contains__(self, x):
+        return "yes"
+    def __getitem__(self, i):
+        raise KeyError(i)
+    def __call__(self, *a, **k):
+        return self
+    def __eq__(self, o):
+        return 3
+    def __lt__(self, o):
+        return None
+    def __enter__(self):
+        return self
+    def __exit__(self, *a):
+        return 7
+    def __int__(self):
+        return 1.5
+    def __float__(self):
+        return "f"
+    def __complex__(self):
+        return 1
+    def __neg__(self):
+        return None
+    def __add__(self, o):
+        return NotImplemented
+def mk(c):
+    try:
+        return c()
+    except Exception:
+        return None
+def mksub(base, name):
+    try:
+        return type(name, (base,), {})()
+    except Exception:
+        return None
+subl = mksub(list, "SubList")
+subd = mksub(dict, "SubDict")
+subs = mksub(str, "SubStr")
+subn = mksub(int, "SubInt")
+subt = mksub(tuple, "SubTuple")
+sube = mksub(KeyError, "SubKeyError")
+hostile = mk(Hostile)
 `
 
 func callSetup() {
@@ -158,6 +214,15 @@ func buildUniverse() {
 		}
 		return o
 	})
+	for _, nm := range []string{"subl", "subd", "subs", "subn", "subt", "sube", "hostile"} {
+		nm := nm
+		if g(nm) != nil && g(nm) != py.None {
+			add("inst "+nm, false, func() py.Object { return g(nm) })
+		}
+	}
+	add("[('a',)]", false, func() py.Object {
+		return py.NewListFromItems([]py.Object{py.Tuple{py.String("a")}, py.Tuple{py.String("b"), py.Int(1), py.Int(2)}, py.Tuple{}})
+	})
 	add("class K", false, func() py.Object { return g("K") })
 	add("instance", false, func() py.Object { return g("inst") })
 	add("KeyError", false, c(py.KeyError))
@@ -234,8 +299,21 @@ func buildSnippets() {
 }
 
 func typeDictNames(t *py.Type) []string {
-	var out []string
+	// the type's own attribute table and, for a class defined in Python, those of the classes it inherits from (not object's):
+	// an instance of a Python subclass of list reaches list's Go methods with a receiver they do not expect
+	seen := map[string]bool{}
 	for k := range t.Dict {
+		seen[k] = true
+	}
+	for _, b := range t.Mro {
+		if bt, ok := b.(*py.Type); ok && bt != py.ObjectType && bt != t {
+			for k := range bt.Dict {
+				seen[k] = true
+			}
+		}
+	}
+	var out []string
+	for k := range seen {
 		out = append(out, k)
 	}
 	sort.Strings(out)
